@@ -91,6 +91,14 @@ def description_texts():
             post = "}\n" * indent
             ind = "\t" * indent
             out.append(pre + "".join(ind + l + "\n" for l in body.split("\n") if l) + post)
+    # empty description lines in every position of a short block, already-canonical and not
+    for n in range(1, 5):
+        for mask in range(2 ** n):
+            lines = ["| w%d" % i if mask >> i & 1 else "|" for i in range(n)]
+            for ind in ("", "\t"):
+                blk = "".join(ind + l + "\n" for l in lines)
+                out.append(blk if not ind else "b {\n" + blk + "}\n")
+                out.append("a = 1\n" + blk + "c = 2\n" if not ind else "b {\n\ta = 1\n" + blk + "}\n")
     return out
 
 
